@@ -14,10 +14,12 @@ panicking construct. Sites are classed:
 `hard` and `overflow` sites must be listed in the audit table by key and count;
 `bug` sites are audited per function.
 """
+import json
+import os
 import re
 from collections import defaultdict
 
-from .facts import path_match, strip_generics
+from .facts import Operand, path_match, strip_generics
 
 IGNORED_ASSERTS = ("MisalignedPointerDereference", "NullPointerDereference", "InvalidEnumConstruction")
 
@@ -155,15 +157,35 @@ def short_ty(t):
     return t.split("::")[-1] if "::" in t and not t.startswith("[") else t
 
 
-class Site:
-    __slots__ = ("fn", "cls", "kind", "line", "macs", "chain")
+# Callee names that matter for a bounds / arithmetic argument. The *fingerprint* of an audited site is the
+# set of such calls its operands are computed from: the audit's reason ("idx is checked_sub's Some value")
+# is an argument about exactly this dataflow, so when it changes the audit is stale.
+FP_RE = re.compile(r"^(checked_|saturating_|wrapping_|overflowing_|unchecked_|strict_|binary_search|split_|chunks|from_[lbn]e_bytes$|to_[lbn]e_bytes$)"
+                   r"|^(min|max|clamp|len|position|rposition|find|get|get_mut|first|last|try_from|try_into|count|size_hint|capacity|rem_euclid|div_euclid|abs|"
+                   r"unsigned_abs|pow|next_power_of_two|leading_zeros|trailing_zeros|parse|partition_point|windows|align_offset|offset_from|sub|add|mul|div|rem|neg|"
+                   r"is_empty|is_char_boundary|char_indices|checked|ok_or|ok_or_else|unwrap_or|unwrap_or_default|unwrap_or_else|assume)$")
 
-    def __init__(self, fn, cls, kind, line, macs):
+
+class Site:
+    __slots__ = ("fn", "cls", "kind", "line", "macs", "chain", "ops")
+
+    def __init__(self, fn, cls, kind, line, macs, ops=()):
         self.fn = fn
         self.cls = cls
         self.kind = kind
         self.line = line
         self.macs = macs
+        self.ops = ops
+
+    def fingerprint(self):
+        tags = set()
+        for o in self.ops:
+            if o is None or o.place is None:
+                continue
+            for t in self.fn.origins(o, through_calls="*", max_depth=16):
+                if t.startswith("call:") and FP_RE.search(t[5:]):
+                    tags.add(t[5:])
+        return ",".join(sorted(tags))
 
     def key(self):
         return (self.fn.path, self.kind)
@@ -260,6 +282,15 @@ class CallGraph:
         return order, seen, stats
 
 
+FP_FILE = os.path.join(os.path.dirname(os.path.dirname(os.path.abspath(__file__))), "tables", "k4_fingerprints.json")
+try:
+    with open(FP_FILE) as _fh:
+        FINGERPRINTS = json.load(_fh)
+except OSError:
+    FINGERPRINTS = {}
+FREEZE = {} if os.environ.get("VERIF_K4_FREEZE") else None
+
+
 def sites_in(fn):
     out = []
     for b in range(fn.nblocks):
@@ -272,14 +303,15 @@ def sites_in(fn):
             if k in IGNORED_ASSERTS:
                 continue
             macs = a["span"]["macs"]
+            ops = (Operand(a["cond"]),) if a.get("cond") else ()
             if k.startswith("Overflow"):
-                out.append(Site(fn, "overflow", k, a["span"]["line"], macs))
+                out.append(Site(fn, "overflow", k, a["span"]["line"], macs, ops))
             else:
-                out.append(Site(fn, "hard", k, a["span"]["line"], macs))
+                out.append(Site(fn, "hard", k, a["span"]["line"], macs, ops))
     for c in fn.calls:
         ck = callee_kind(c) or alloc_site(fn, c)
         if ck:
-            out.append(Site(fn, ck[0], ck[1], c.line, c.macs))
+            out.append(Site(fn, ck[0], ck[1], c.line, c.macs, tuple(c.args)))
     return out
 
 
@@ -325,7 +357,17 @@ def run_k4(F, rep, entries, audit, bug_audit, rule="K4 may-panic", stop=(), skip
         else:
             used.add(ent[0])
             cnt, reason = ent[1]
-            if len(sites) > cnt:
+            fkey = "%s|%s|%s" % (rep.pid, fp, kind)
+            cur = sorted(s_.fingerprint() for s_ in sites)
+            if FREEZE is not None:
+                FREEZE[fkey] = cur
+            frozen = FINGERPRINTS.get(fkey)
+            if frozen is not None and FREEZE is None and not set(cur) <= set(frozen):
+                rep.violation("%s|%s|audit-stale" % (fp, kind), rule,
+                              "the audited may-panic site `%s` in %s is now computed differently: its operands derive from {%s}, the audit (%s) was made for {%s}. "
+                              "Re-audit the site and refreeze (tools/k4_freeze.py) if it is still safe" % (
+                                  kind, fp, " ; ".join(x or "-" for x in cur), reason, " ; ".join(x or "-" for x in frozen)), site)
+            elif len(sites) > cnt:
                 rep.violation("%s|%s|count" % (fp, kind), rule,
                               "%d `%s` sites in %s but only %d audited (%s); path: %s" % (
                                   len(sites), kind, fp, cnt, reason, chain_of(seen, f, None)), site)
